@@ -4,6 +4,8 @@ From Coq Require Import ZArith String.
 From Cicada Require Import Base.Chars Gen.CalcTables Model.Calc
   Proofs.CalcClassify Proofs.CalcPratt Proofs.CalcFusion Proofs.CalcInt Proofs.CalcWf
   Proofs.CalcPrint Proofs.CalcLine Proofs.CalcFuel Proofs.CalcText.
+From Cicada Require Base.Peg Gen.CalcGrammar Model.CalcPeg Proofs.CalcPegSim.
+From Cicada Require Import Model.CalcFloat Proofs.CalcFloatProofs.
 Local Open Scope string_scope.
 
 (** The source sites the hand-written matchers / tokenizer / table were written
@@ -243,6 +245,71 @@ Example C19_nonvacuous_fuel :
   parse_calc (s2l "1^(2^(3^(4^(5^(6^(7^(8^(9)))))))) x") = PFail.
 Proof. vm_compute. repeat split. eexists. reflexivity. Qed.
 
+(** (8) Round 9b. The hand-written PEG model IS the generated grammar: the generic pest
+    interpreter (Base/Peg.v [ev]) run on Gen/CalcGrammar.v (generated from
+    src/calculator/grammar.pest on every run) and converted to pair lists ([peg_pairs], fuel
+    64 + 24 * length) gives, on EVERY line (any characters), exactly what [parse_calc] gives:
+    the same pair list, or failure. An edit of the grammar changes [k_grammar] and breaks the
+    unfolding lemmas of Proofs/CalcPegSim.v. *)
+Theorem C19_peg_is_hand_parser : forall line : str,
+  CalcPeg.peg_pairs line = CalcPegSim.of_hand (parse_calc line).
+Proof. exact CalcPegSim.peg_is_hand. Qed.
+
+(** the generic interpreter never runs out of fuel on the calculator grammar above 8 * length + 50 *)
+Theorem C19_peg_fuel_suffices : forall (line : str) (f : nat),
+  (8 * length line + 50 <= f)%nat ->
+  Peg.ev CalcGrammar.k_grammar f (Peg.PRef 11) Peg.AtNon 0 line <> Peg.PFuel.
+Proof. exact CalcPegSim.peg_is_hand_fuel. Qed.
+
+Theorem C19_peg_nofuel : forall line : str, CalcPeg.peg_pairs line <> CalcPeg.GFuel.
+Proof. exact CalcPegSim.peg_nofuel. Qed.
+
+(** the string -> tree theorem through the generated grammar *)
+Theorem C19_peg_render_parse : forall (sp : str) (t : tree N),
+  forallb is_blankc sp = true ->
+  exists ps, CalcPeg.peg_pairs (text sp t) = CalcPeg.GOk ps /\ pratt_tree (2 * tot ps + 1) ps = Ok (dtree t).
+Proof.
+  intros sp t Hsp. destruct (C19_render_parse sp t Hsp) as (ps & Hp & Ht).
+  exists ps. split; [|exact Ht]. rewrite C19_peg_is_hand_parser, Hp. reflexivity.
+Qed.
+
+Check C19_peg_is_hand_parser : forall line : str,
+  CalcPeg.peg_pairs line = CalcPegSim.of_hand (parse_calc line).
+Check C19_peg_render_parse : forall (sp : str) (t : tree N),
+  forallb is_blankc sp = true ->
+  exists ps, CalcPeg.peg_pairs (text sp t) = CalcPeg.GOk ps /\ pratt_tree (2 * tot ps + 1) ps = Ok (dtree t).
+
+Example C19_nonvacuous_peg :
+  CalcPeg.peg_pairs (s2l " 1 - ( 20 - ( 3 + 0 ) ^ 2 ) * 4 ^ ( 5 ^ 6 ) ^ 7 ") = CalcPegSim.of_hand (parse_calc (text [32%N] ex_n)) /\
+  (exists ps, parse_calc (text [32%N] ex_n) = POk ps) /\
+  CalcPeg.peg_pairs (s2l "1 +") = CalcPeg.GFail /\
+  CalcPegSim.of_hand (POk [PNum (s2l "1")]) = CalcPeg.GOk [PNum (s2l "1")].
+Proof. vm_compute. repeat split. eexists. reflexivity. Qed.
+
+(** (9) Round 9b. Float mode. For ANY f64 oracle [ops] (add, sub, mul, div, powf, literal
+    parse; a record of functions, nothing assumed about them): when the model of
+    run_calculator is in float mode with Pratt tree t, the float evaluator of
+    calculator::eval_float (closures evaluated inside the Pratt parser, [run_calculator_f])
+    returns exactly the post-order fold of the oracle over t. So the precedence /
+    associativity / text theorems about t carry over to float mode. *)
+Theorem C19_float_structure : forall (F : Type) (ops : fops F) (line : str) (t : tree str),
+  run_calculator line = RFloat (Ok t) ->
+  run_calculator_f ops line = FFloat (Ok (fold_float ops t)).
+Proof. exact float_structure. Qed.
+
+Theorem C19_float_structure_all : forall (F : Type) (ops : fops F) (line : str),
+  match run_calculator line with
+  | RSyntax => run_calculator_f ops line = FSyntax
+  | RFuel => run_calculator_f ops line = FFuel
+  | RInt r => run_calculator_f ops line = FInt r
+  | RFloat r => exists t, r = Ok t /\ run_calculator_f ops line = FFloat (Ok (fold_float ops t))
+  end.
+Proof. exact float_structure_all. Qed.
+
+(** every num token of the grammar has the syntax str::parse::<f64> accepts (the unwrap cannot fail) *)
+Theorem C19_float_literals : forall s t r, p_num s = Some (t, r) -> f64_syntax t = true.
+Proof. exact num_f64_syntax. Qed.
+
 (** Regression examples: the inputs of the four classes repaired by c1ba25a. *)
 Definition w_lit := s2l "99999999999999999999 + 1".
 Definition w_pow := s2l "2 ^ 64".
@@ -359,3 +426,10 @@ Print Assumptions C19_dec_literal.
 Print Assumptions C19_render_value.
 Print Assumptions C19_is_arithmetic_is_source_regex.
 Print Assumptions C19_arith_matchers_are_source_regexes.
+Print Assumptions C19_peg_is_hand_parser.
+Print Assumptions C19_peg_fuel_suffices.
+Print Assumptions C19_peg_nofuel.
+Print Assumptions C19_peg_render_parse.
+Print Assumptions C19_float_structure.
+Print Assumptions C19_float_structure_all.
+Print Assumptions C19_float_literals.
